@@ -234,6 +234,13 @@ func mutateThrift(cs Case) []byte {
 	return b
 }
 
+// varints written over a tag / length / value position: 2^64-1, 2^31-1, an over-long encoding, small values and wire types,
+// 2^32-1, and lengths at the edge of int64 (2^63-1, 2^63-2, 2^63-10, 2^63, 2^63+5, 2^62) where position+length wraps around
+var varintRepl = [][]byte{{0xff, 0xff, 0xff, 0xff, 0xff, 0xff, 0xff, 0xff, 0xff, 0x01}, {0xff, 0xff, 0xff, 0xff, 0x07}, {0x80, 0x80, 0x80, 0x80, 0x80, 0x80, 0x80, 0x80, 0x80, 0x80, 0x01}, {0x00}, {0x07}, {0x03}, {0x04}, {0xff, 0xff, 0xff, 0xff, 0x0f},
+	{0xff, 0xff, 0xff, 0xff, 0xff, 0xff, 0xff, 0xff, 0x7f}, {0xfe, 0xff, 0xff, 0xff, 0xff, 0xff, 0xff, 0xff, 0x7f}, {0xf6, 0xff, 0xff, 0xff, 0xff, 0xff, 0xff, 0xff, 0x7f},
+	{0x80, 0x80, 0x80, 0x80, 0x80, 0x80, 0x80, 0x80, 0x80, 0x01}, {0x85, 0x80, 0x80, 0x80, 0x80, 0x80, 0x80, 0x80, 0x80, 0x01}, {0x80, 0x80, 0x80, 0x80, 0x80, 0x80, 0x80, 0x80, 0x40},
+	{0xf5, 0xff, 0xff, 0xff, 0xff, 0xff, 0xff, 0xff, 0xff, 0x01}, {0x80, 0x80, 0x80, 0x80, 0x08}}
+
 func mutateBytes(src []byte, m Mut) []byte {
 	b := append([]byte(nil), src...)
 	switch m.Kind {
@@ -242,7 +249,7 @@ func mutateBytes(src []byte, m Mut) []byte {
 	case 2, 3: // a varint / tag position: overwrite with a long or odd varint
 		if len(b) > 0 {
 			p := m.Pos % len(b)
-			repl := [][]byte{{0xff, 0xff, 0xff, 0xff, 0xff, 0xff, 0xff, 0xff, 0xff, 0x01}, {0xff, 0xff, 0xff, 0xff, 0x07}, {0x80, 0x80, 0x80, 0x80, 0x80, 0x80, 0x80, 0x80, 0x80, 0x80, 0x01}, {0x00}, {0x07}, {0x03}, {0x04}, {0xff, 0xff, 0xff, 0xff, 0x0f}}[m.Val%8]
+			repl := varintRepl[m.Val%uint64(len(varintRepl))]
 			b = append(b[:p:p], append(append([]byte(nil), repl...), b[p+1:]...)...)
 		}
 	case 4:
@@ -521,7 +528,7 @@ func genMut(t *rapid.T) Mut {
 
 var Prop = pbt.Register(pbt.Prop[Case]{
 	Name: "TestArbitraryBytes",
-	Rule: "well-formed Thrift messages, Protobuf messages and JSON documents of generated descriptors, then: left intact, truncated at any point, one size/length/count field replaced by 2^31-1 / 2^31 / 2^32-1 / +-1 / large values (Thrift: exact positions from the reference encoder's span table; Protobuf: over-long and maximal varints, group/unknown wire types at any position), one type byte replaced, one arbitrary byte replaced, garbage appended, or replaced entirely by random bytes / JSON token soup, or (JSON) a document that opens 1..70000 object/array/map frames against recursive descriptors (depths around 64, 128, 256, 512, 1024, 65536), closed or cut at the deepest point; the bytes are placed flush against an inaccessible page and given to every read-side entry point (skip Go/native, t2j, ReadAnyWithDesc, generic Interface/GetByPath/Load+Marshal/MarshalTo, message envelope parser; p2j, proto ReadAnyWithDesc, proto generic reads; j2t, j2p); each call must return (watchdog), must not panic or fault, must leave its read cursor inside the input and must not allocate more than 512 bytes per input byte + 4 MiB; every case is non-trivial",
+	Rule: "well-formed Thrift messages, Protobuf messages and JSON documents of generated descriptors, then: left intact, truncated at any point, one size/length/count field replaced by 2^31-1 / 2^31 / 2^32-1 / +-1 / large values (Thrift: exact positions from the reference encoder's span table; Protobuf: over-long and maximal varints and lengths around 2^63 where position+length wraps, group/unknown wire types at any position), one type byte replaced, one arbitrary byte replaced, garbage appended, or replaced entirely by random bytes / JSON token soup, or (JSON) a document that opens 1..70000 object/array/map frames against recursive descriptors (depths around 64, 128, 256, 512, 1024, 65536), closed or cut at the deepest point; the bytes are placed flush against an inaccessible page and given to every read-side entry point (skip Go/native, t2j, ReadAnyWithDesc, generic Interface/GetByPath/Load+Marshal/MarshalTo, message envelope parser; p2j, proto ReadAnyWithDesc, proto generic reads; j2t, j2p); each call must return (watchdog), must not panic or fault, must leave its read cursor inside the input and must not allocate more than 512 bytes per input byte + 4 MiB; every case is non-trivial",
 	Gen: func(t *rapid.T) Case {
 		cs := Case{Fmt: []string{"thrift", "thrift", "proto", "json"}[rapid.IntRange(0, 3).Draw(t, "format")]}
 		switch cs.Fmt {
